@@ -4,8 +4,10 @@ EXTENDS CsvImport
 CONSTANT MaxRead
 
 MCVals == {<<1, 2, 3, 4>>, <<5, 0, 1, 0>>}
+MCVals1 == {<<1, 2, 3, 4>>}
 MCSchemas == {[id |-> "with", iface |-> TRUE], [id |-> "without", iface |-> FALSE]}
 \* unusable rows: the remaining fields cannot matter, one representative per kind and time
 MCCandidates(s) == OkRows \cup {r \in BadRows(s) : r.iface = "a" /\ r.key = "k4" /\ r.val = <<1, 2, 3, 4>>}
+MCCandidates1(s) == {r \in MCCandidates(s) : r.val = <<1, 2, 3, 4>>}
 Bound == read <= MaxRead
 =============================================================================
